@@ -172,8 +172,58 @@ def _primitives():
     return _PRIMS
 
 
-def inlinable(name, f, recursive):
+_ROLE_KEEP = {}
+
+
+def role_keep(raw_fns):
+    """names of the functions that play the roles the rules anchor on, whatever they are called and wherever they live (a module split or a
+    rename must not change what is inlined): the two parsers (they assign SDJWTCommon.input_disclosures), the digest-map writer (it inserts
+    into hash_to_decoded_disclosure), the reserved-name guard (a self-recursive `fn(&Value) -> Result<()>`), and the header-algorithm reader
+    (returns Option<String> and mentions the constant "alg")"""
+    key = id(raw_fns)
+    if key in _ROLE_KEEP:
+        return _ROLE_KEEP[key]
+    out = set()
+    for name, f in raw_fns.items():
+        if f.get("kind") == "closure" or f.get("def_exp"):
+            continue
+        try:
+            txt = None
+            for b in f["blocks"]:
+                if b["cleanup"]:
+                    continue
+                for st in b["stmts"]:
+                    if st["k"] == "assign" and st["place"]["proj"] and st["place"]["proj"][-1].get("k") == "field" and st["place"]["proj"][-1].get("name") == "input_disclosures" \
+                            and st["place"]["proj"][-1].get("adt") == "SDJWTCommon":
+                        out.add(name)
+                t = b["term"]
+                if t["k"] == "call":
+                    d = t.get("dest") or {}
+                    if d.get("proj") and d["proj"][-1].get("k") == "field" and d["proj"][-1].get("name") == "input_disclosures" and d["proj"][-1].get("adt") == "SDJWTCommon":
+                        out.add(name)
+                    if t.get("name") == "insert" and (t.get("self_adt") == "std::collections::HashMap"):
+                        for b2 in f["blocks"]:
+                            for st in b2["stmts"]:
+                                rv = st.get("rv") or {}
+                                if st["k"] == "assign" and "ref" in rv and rv.get("mut") and any(e.get("k") == "field" and e.get("name") == "hash_to_decoded_disclosure" for e in rv["ref"]["proj"]):
+                                    out.add(name)
+                    if t.get("resolved") == name and (f.get("ret_ty") or "").startswith("std::result::Result<()") and f.get("arg_count") == 1 \
+                            and "serde_json::Value" in ((f["locals"][1] or {}).get("ty") or ""):
+                        out.add(name)
+            if (f.get("ret_ty") or "") == "std::option::Option<std::string::String>":
+                import json as _json
+                if '"alg"' in _json.dumps(f["blocks"]) or "'alg'" in _json.dumps(f.get("promoted") or []):
+                    out.add(name)
+        except Exception:
+            continue
+    _ROLE_KEEP[key] = out
+    return out
+
+
+def inlinable(name, f, recursive, raw_fns=None):
     if name in KEEP_NAMES or name.endswith(KEEP_SUFFIXES):
+        return False
+    if raw_fns is not None and name in role_keep(raw_fns):
         return False
     if name.startswith(KEEP_PREFIXES) and (name in _primitives() or not _primitives()):
         return False
@@ -2184,7 +2234,7 @@ class Views:
                     continue
                 if cn not in self.raw or cn == name:
                     continue
-                if not inlinable(cn, self.raw[cn], self.recursive) and not _delegation(self, f, name, cn, own_ids):
+                if not inlinable(cn, self.raw[cn], self.recursive, self.raw) and not _delegation(self, f, name, cn, own_ids):
                     continue
                 h = self.get(cn, depth + 1, stack + (name,))
                 if len(f["blocks"]) + len(h["blocks"]) > MAX_VIEW_BLOCKS:
